@@ -1170,33 +1170,51 @@ def spec_wrap_add_text_normal(ctx, make_exe):
     return {"function": f.name, "paths": total}
 
 
-def spec_wrap_add_text_pre(ctx, make_exe):
-    """Preformatted flow: terminates for every block width (including 0), newline forces a line,
-    a tab advances to the next multiple of 8 when it fits."""
+def _wrap_pre_posts(exe, m, f, ref, chars, outs, mode):
     import wrapmodel
+    c = chars[0].e
+    for (s2, ret) in outs:
+        if not (isinstance(ret, VAgg) and ret.variant in ("Ok", "Err")):
+            raise Inconclusive("add_text did not return a Result")
+        if ret.variant == "Err":
+            post(exe, s2, z3.Not(m.allow_overflow.e), f.name, "add_text(%s): TooNarrow only when overflow is not allowed" % mode)
+            continue
+        p = _wrap_post_state(exe, m, s2, ref)
+        post(exe, s2, z3.Implies(z3.Not(m.allow_overflow.e), z3.And(z3.ULE(p["line_len"], m.width.e), z3.ULE(p["maxlen"], m.width.e))),
+             f.name, "add_text(%s): no line is wider than the block" % mode)
+        nl = z3.And(c == 0x0a, m.wordlen.e == 0, z3.Not(m.word_nonempty.e))
+        post(exe, s2, z3.Implies(nl, z3.And(p["count"] == m.text_count.e + 1, p["line_len"] == 0, p["wslen"] == 0, z3.Not(p["pre_wrapped"]))),
+             f.name, "add_text(%s): a newline ends the line and resets pending space" % mode)
+        tab_fits = z3.And(c == 0x09, m.wordlen.e == 0, z3.Not(m.word_nonempty.e), m.wslen.e == 0,
+                          z3.ULE(m.line_len.e + 8, m.width.e))
+        nxt = (z3.UDiv(m.line_len.e, u64(8)) + 1) * 8
+        post(exe, s2, z3.Implies(tab_fits, z3.And(p["line_len"] == nxt, p["count"] == m.text_count.e)),
+             f.name, "add_text(%s): a tab advances to the next 8-column stop" % mode)
+
+
+def spec_wrap_add_text_pre(ctx, make_exe):
+    """Preformatted flow, characters other than tab: terminates for every block width (including 0),
+    newline forces a line, the width bound is preserved."""
     total = 0
     for mode in ("Pre", "PreWrap"):
         for tag_some in (True, False):
-            f, exe, m, ref, chars, outs = _run_add_text(ctx, make_exe, mode, 1, ["a", " ", "\n", "\t", "wide"], tag_some, loop_bound=28)
+            f, exe, m, ref, chars, outs = _run_add_text(ctx, make_exe, mode, 1, ["a", " ", "\n", "wide"], tag_some, loop_bound=10,
+                                                        extra_pre=lambda m: [z3.ULE(m.wslen.e, u64(3))])
             total += len(outs)
-            c = chars[0].e
-            for (s2, ret) in outs:
-                if not (isinstance(ret, VAgg) and ret.variant in ("Ok", "Err")):
-                    raise Inconclusive("add_text did not return a Result")
-                if ret.variant == "Err":
-                    post(exe, s2, z3.Not(m.allow_overflow.e), f.name, "add_text(%s): TooNarrow only when overflow is not allowed" % mode)
-                    continue
-                p = _wrap_post_state(exe, m, s2, ref)
-                post(exe, s2, z3.Implies(z3.Not(m.allow_overflow.e), z3.And(z3.ULE(p["line_len"], m.width.e), z3.ULE(p["maxlen"], m.width.e))),
-                     f.name, "add_text(%s): no line is wider than the block" % mode)
-                nl = z3.And(c == 0x0a, m.wordlen.e == 0, z3.Not(m.word_nonempty.e))
-                post(exe, s2, z3.Implies(nl, z3.And(p["count"] == m.text_count.e + 1, p["line_len"] == 0, p["wslen"] == 0, z3.Not(p["pre_wrapped"]))),
-                     f.name, "add_text(%s): a newline ends the line and resets pending space" % mode)
-                tab_fits = z3.And(c == 0x09, m.wordlen.e == 0, z3.Not(m.word_nonempty.e), m.wslen.e == 0,
-                                  z3.ULE(m.line_len.e + 8, m.width.e))
-                nxt = (z3.UDiv(m.line_len.e, u64(8)) + 1) * 8
-                post(exe, s2, z3.Implies(tab_fits, z3.And(p["line_len"] == nxt, p["count"] == m.text_count.e)),
-                     f.name, "add_text(%s): a tab advances to the next 8-column stop" % mode)
+            _wrap_pre_posts(exe, m, f, ref, chars, outs, mode)
+    return {"function": f.name, "paths": total}
+
+
+def spec_wrap_add_text_tab(ctx, make_exe):
+    """Preformatted flow, tab: the tab-stop loop terminates for every block width 0..=20 and line position,
+    and lands on the next 8-column stop when it fits."""
+    total = 0
+    for mode in ("Pre", "PreWrap"):
+        f, exe, m, ref, chars, outs = _run_add_text(
+            ctx, make_exe, mode, 1, ["\t"], False, loop_bound=30,
+            extra_pre=lambda m: [z3.ULE(m.width.e, u64(20)), m.wordlen.e == 0, z3.Not(m.word_nonempty.e)])
+        total += len(outs)
+        _wrap_pre_posts(exe, m, f, ref, chars, outs, mode)
     return {"function": f.name, "paths": total}
 
 
@@ -1340,8 +1358,12 @@ ALL = [
          bounds="any valid block state, then two characters from {a, space, newline, tab, wide CJK, combining mark, NBSP}; normal white-space mode",
          assumptions=["as wrap_flush_word"], replay=replay_wrap),
     Spec("wrap_add_text_pre", ["C12", "C01", "C02"], spec_wrap_add_text_pre,
-         functions=["WrappedBlock::add_text (preserve-whitespace branch, tab-stop loop)", "WrappedBlock::flush_word", "WrappedBlock::flush_line"],
-         bounds="any valid block state with width <= 2^20 (including 0), then one character from {a, space, newline, tab, wide CJK}; pre and pre-wrap modes; loop bound 28",
+         functions=["WrappedBlock::add_text (preserve-whitespace branch)", "WrappedBlock::flush_word", "WrappedBlock::flush_line", "WrappedBlock::progress_width"],
+         bounds="any valid block state with width <= 2^20 (including 0), pending space <= 3, then one character from {a, space, newline, wide CJK}; pre and pre-wrap modes",
+         assumptions=["as wrap_flush_word"], replay=replay_wrap),
+    Spec("wrap_add_text_tab", ["C12", "C01"], spec_wrap_add_text_tab,
+         functions=["WrappedBlock::add_text (tab-stop loop)", "WrappedBlock::flush_line", "WrappedBlock::progress_width"],
+         bounds="any valid block state with width <= 20 (including 0), no pending word, then a tab; pre and pre-wrap modes; loop bound 30",
          assumptions=["as wrap_flush_word"], replay=replay_wrap),
     Spec("dom_constructors", ["C03", "C08"], spec_dom_constructors,
          functions=["process_dom_node::{closure#N} for every element kind (the reducers that build the render node from the children)"],
